@@ -538,10 +538,44 @@ def gen_times(rng):
     return ts
 
 
+ENUM_KINDS = ['set_administration', 'set_dosing_regimen', 'set_outputs',
+              'set_parameter_names', 'set_output_names',
+              'enable_sensitivities', 'fix_parameters', 'copy', 'simulate']
+ENUM_TOTAL = sum(len(ENUM_KINDS) ** k for k in (1, 2, 3))     # 819
+ENUM_ROUNDS = 6
+
+
+def enum_sequence(j):
+    """The j-th operation-kind sequence of length <= 3 (j < ENUM_TOTAL)."""
+    n = len(ENUM_KINDS)
+    for length in (1, 2, 3):
+        if j < n ** length:
+            seq = []
+            for _ in range(length):
+                seq.append(ENUM_KINDS[j % n])
+                j //= n
+            return seq
+        j -= n ** length
+    raise IndexError(j)
+
+
 def generate(rng, index, tier):
+    forced = None
+    if tier == 'thorough' and index < ENUM_TOTAL * ENUM_ROUNDS:
+        # thorough tier: every operation-kind sequence of length <= 3 is
+        # certainly visited, on dosed library / generated models, plain and
+        # behind a reduced wrapper (arguments stay seeded-random)
+        forced = enum_sequence(index % ENUM_TOTAL)
     cls, src = gen_source(rng)
+    if forced is not None:
+        rnd = index // ENUM_TOTAL
+        cls = 'pkpd'
+        src = {'lib': 'pk1'} if rnd % 2 == 0 else {
+            'gen': zoo.gen_sbml_spec(rng, n_comps=2)}
     info = model_info(src)
     reduced = rng.random() < 0.3
+    if forced is not None:
+        reduced = (index // ENUM_TOTAL) % 3 == 2
     recipe = {'h': 'm1', 'kind': 'mech', 'cls': cls, 'src': src,
               'reduced': reduced, 'config': []}
     dosable = []
@@ -571,8 +605,20 @@ def generate(rng, index, tier):
                          o['op'] == 'set_administration' and not o['direct']
                          for o in recipe['config'])}}
     all_out = info['states'] + info['inter']
-    for _ in range(n_ops):
-        k = rng.choices(kinds, [weights[x] for x in kinds])[0]
+    if forced is not None:
+        # start from a dosed model half of the time so that short sequences
+        # meet a regimen
+        if not reduced and (index // ENUM_TOTAL) % 2 == 1:
+            comp, var = dosable[0]
+            recipe['config'].append(
+                {'op': 'set_administration', 'compartment': comp,
+                 'amount_var': var, 'direct': True})
+            recipe['config'].append(gen_regimen(rng))
+        elif reduced and recipe['config']:
+            recipe['config'].append(gen_regimen(rng))
+    plan = forced if forced is not None else [None] * n_ops
+    for fk in plan:
+        k = fk or rng.choices(kinds, [weights[x] for x in kinds])[0]
         h = rng.choice(handles)
         sh = shadow[h]
         op = {'op': k, 'on': h}
@@ -672,3 +718,22 @@ def generate(rng, index, tier):
     return {'property': PROP, 'recipes': [recipe], 'ops': ops,
             'probe': {'theta': gen_theta(rng, info), 'times': gen_times(rng)},
             'profile': {'kinds': sorted(kinds), 'faults': faults_on}}
+
+
+def recipe_tag(scenario):
+    r = scenario['recipes'][0]
+    src = r['src'].get('lib') or 'gen%d%s' % (
+        len(r['src']['gen']['comps']), 'mm' if r['src']['gen'].get('mm')
+        else '')
+    return '%s:%s:%s:%s' % (r['cls'], src, 'red' if r.get('reduced') else '',
+                            ','.join(o['op'] for o in r.get('config', [])))
+
+
+def op_tag(op):
+    if op['op'] == 'set_administration':
+        return ':d' if op.get('direct', True) else ':i'
+    if op['op'] == 'enable_sensitivities':
+        return ':on' if op.get('enabled') else ':off'
+    if op['op'] == 'set_dosing_regimen':
+        return ':p' if 'protocol' in op else ''
+    return ':' + str(op.get('on', ''))
